@@ -69,6 +69,20 @@ IsMarker(line) ==
   \/ StartsWithCp(line, <<60, 115, 112, 97, 110, 32, 115, 116, 121, 108, 101, 61, 34, 99, 111, 108, 111, 114,
                           58, 114, 101, 100, 34, 62, 60, 98, 62>>)   \* <span style="color:red"><b>
 
+\* Known-finding classifier: a merged line that is the last line of a base source WITHOUT line ending, glued
+\* to a line one side appended after it (the change that adds the line ending was conflicted away).
+UnterminatedLastLines(nb) ==
+  {StripEnd(SplitLines(SourceOf(CellsOf(nb)[k]), PyLineSeps)[Len(SplitLines(SourceOf(CellsOf(nb)[k]), PyLineSeps))]) :
+     k \in {q \in 1..Len(CellsOf(nb)) :
+              LET c == SourceOf(CellsOf(nb)[q]) IN Len(c) > 0 /\ c[Len(c)] \notin Terminators}}
+IsGlued(ln, base, src) ==
+  \E pre \in UnterminatedLastLines(base) :
+     /\ Len(pre) > 0 /\ Len(ln) > Len(pre) /\ SubSeq(ln, 1, Len(pre)) = pre
+     /\ SubSeq(ln, Len(pre) + 1, Len(ln)) \in src
+LinesProvenanceModGlue(base, local, remote, merged) ==
+  LET src == SourceLines(base) \cup SourceLines(local) \cup SourceLines(remote)
+  IN \A ln \in SourceLines(merged) : IsBlank(ln) \/ ln \in src \/ IsMarker(ln) \/ IsGlued(ln, base, src)
+
 LinesSurvive(base, local, remote, merged) ==
   LET bl == SourceLines(base) ml == SourceLines(merged)
   IN \A ln \in (SourceLines(local) \cup SourceLines(remote)) \ bl : IsBlank(ln) \/ ln \in ml
